@@ -7,7 +7,7 @@ dir=$1; shift; ids="$@"
 wt=/tmp/sv_$(basename $dir)_$$
 git -C /repo worktree add -q --detach $wt HEAD || exit 2
 rtag=$(echo -n $wt | sha256sum | cut -c1-6)
-cleanup() { git -C /repo worktree remove --force $wt 2>/dev/null; rm -rf $wt /verif/.work/*-*-$rtag-*; }
+cleanup() { git -C /repo worktree remove --force $wt 2>/dev/null; rm -rf $wt /verif/.work/*-*-$rtag-* /verif/.work/evidence-$rtag; }
 trap cleanup EXIT
 echo "== clean build"; cmake -G Ninja -S $wt -B $wt/_build >/dev/null && cmake --build $wt/_build >/dev/null 2>&1 || { echo "clean build failed"; exit 2; }
 g++ -std=c++20 -I$wt/include $dir/demo.cxx $wt/_build/libipr.a -o $wt/demo_clean 2>&1 | tail -3
